@@ -25,6 +25,12 @@ var plans = map[string]PropPlan{
 		Quick: []Plan{{Scenario: "lb", Kind: "seq"}}, Thorough: []Plan{{Scenario: "lb", Kind: "seq"}},
 		QuickSecs: 90, ThoroughSecs: 1500, Assumptions: seqAssume,
 	},
+	"C04": {
+		Quick:    []Plan{{Scenario: "conn.send", PB: 2, DB: 1}, {Scenario: "conn.recv", PB: 2, DB: 1}, {Scenario: "conn.send.fine", PB: 1, DB: 1, Fine: true}, {Scenario: "conn.recv.fine", PB: 1, DB: 0, Fine: true}},
+		Thorough: []Plan{{Scenario: "conn.send", PB: 3, DB: 2}, {Scenario: "conn.recv", PB: 3, DB: 2}, {Scenario: "conn.send.fine", PB: 2, DB: 1, Fine: true}, {Scenario: "conn.recv.fine", PB: 2, DB: 1, Fine: true}},
+		QuickSecs: 115, ThoroughSecs: 1800,
+		Assumptions: append([]string{"each half of the path is driven against a raw peer on an AF_UNIX socketpair (conn.send: netpoll writes, raw peer reads; conn.recv: raw peer writes, netpoll reads); TCP is not covered", "the .fine scenarios add a scheduling point before every statement of the LinkBuffer methods, the deliberately lock-free region shared by the poller and the single reader/writer", "short writes/reads and EAGAIN are injected as environment deviations; the genuinely full socket comes from a real 8 KB socket buffer"}, schedAssume...),
+	},
 	"C05": {
 		Quick:     []Plan{{Scenario: "conn.teardown", PB: 2, DB: 0}},
 		Thorough:  []Plan{{Scenario: "conn.teardown", PB: 3, DB: 0}},
